@@ -26,7 +26,8 @@ def h_merge(ctx, cfg):
         ctx.case('merge ' + render_specs(specs), nontrivial=False)
         sigs = [U.sig_of(s, 'f%d' % j)[0] for j, s in enumerate(specs)]
     try:
-        R = S.merge(*sigs)          # the real code, traced
+        with sym.concrete():
+            R = S.merge(*sigs)      # the real code on this path's concrete tuple
     except ValueError:
         ctx.count('raised')
         return
